@@ -868,6 +868,23 @@ def fresh_returning(fx):
     return fresh
 
 
+def _returns_arg(fn, r, vids):
+    """r is a call that is handed the object behind one of the pointers (`f(.., *p, ..)`, `f(.., p[i], ..)`) and returns a pointer: the
+    result may be the address of that object (GlyphCache::Loader::read_glyph returns &glyph), so a plain local that receives it is an
+    alias of the allocation, not a hand-over"""
+    if r['k'] not in CALL_KINDS or '*' not in (r.get('t') or ''):
+        return False
+    for a in ((r.get('args') if 'args' in r else r.get('c')) or []):
+        if a is None:
+            continue
+        x = fn.strip_all_casts(fn.N(a))
+        if x['k'] in ('UnaryOperator', 'ArraySubscriptExpr') and (x['k'] != 'UnaryOperator' or x.get('op') == '*'):
+            b = fn.strip_all_casts(fn.N(x['c'][0]))
+            if b['k'] == 'DeclRefExpr' and b.get('vid') in vids:
+                return True
+    return False
+
+
 def ownlocal(run, fx, reach_q):
     n = 0
     fresh = fresh_returning(fx)
@@ -921,6 +938,14 @@ def ownlocal(run, fx, reach_q):
                                 r = fn.strip_all_casts(d_['init'])
                                 if r['k'] == 'DeclRefExpr' and r.get('vid') in vids:
                                     vids.add(d_['vid'])
+                                elif _returns_arg(fn, r, vids) and not (d_.get('t') or '').rstrip().endswith('&'):
+                                    vids.add(d_['vid'])
+                    if u['k'] == 'BinaryOperator' and u['op'] == '=':
+                        l = fn.strip(u['c'][0])
+                        r = fn.strip_all_casts(u['c'][1])
+                        if l['k'] == 'DeclRefExpr' and l.get('dk') == 'Var' and l.get('vid') is not None and '*' in (l.get('t') or '') \
+                                and not (l.get('dt') or l.get('t') or '').rstrip().endswith('&') and _returns_arg(fn, r, vids):
+                            vids.add(l['vid'])
 
             def isv(x):
                 x = fn.strip_all_casts(x)
@@ -976,7 +1001,7 @@ def ownlocal(run, fx, reach_q):
                     sinks.add(fn.block_of[u['i']])
                     sink_elems.add(u['i'])
             ab = fn.block_of[e['i']]
-            bypass = dom.edges_with(fn, lambda f: f[0] == dd['n'] and f[1] == '==' and f[2] == '0')
+            bypass = dom.edges_with(fn, lambda f: f[0] == dd['n'] and f[1] == '==' and (f[2] == '0' or f[2].startswith('this->')))      # null, or the very block a member already owns (realloc in place)
             # a sink later in the allocation's own block settles it; otherwise walk from that block
             same = False
             for _, u in fn.elements():
